@@ -101,6 +101,15 @@ def cases(tier):
         for npx in (2, 4, 9):
             yield Case("stack:bp:npx=%d:depth=%d" % (npx, depth),
                        {"kind": "stack", "fn": "bp", "par": npx, "depth": depth, "alpha": "A12"})
+    # the same stacks stored in other dtypes (camera counts are integers): stack == frames must not depend on it
+    for dt in ("int64", "uint8", "int32", "float32"):
+        for depth in ((1, 2) if tier == "quick" else (1, 2, 3)):
+            for t in THR:
+                yield Case("stack:cog:thr=%g:depth=%d:dtype=%s" % (t, depth, dt),
+                           {"kind": "stack", "fn": "cog", "par": t, "depth": depth, "alpha": "A12", "dtype": dt}, t != 0)
+            for npx in (2, 4):
+                yield Case("stack:bp:npx=%d:depth=%d:dtype=%s" % (npx, depth, dt),
+                           {"kind": "stack", "fn": "bp", "par": npx, "depth": depth, "alpha": "A12", "dtype": dt})
     if tier != "quick":
         for depth in (1, 2):
             for t in THR:
@@ -365,6 +374,8 @@ def _stack(p):
     o = Out()
     fn, par, depth = p["fn"], p["par"], p["depth"]
     alpha = _a12() if p["alpha"] == "A12" else _b80()
+    if p.get("dtype"):
+        alpha = [numpy.round(a * 4).astype(p["dtype"]) for a in alpha]
     npix = alpha[0].size
 
     def call(a):
